@@ -613,7 +613,7 @@ def search_witness(target, ob, tries=4000):
     names = sorted({v for v in ob.model.values() if isinstance(v, str) and v} |
                    {k for v in ob.model.values() if isinstance(v, dict) for k in v} | {'A', 'B', 'PATH'})
     names = [n for n in names if ':' not in n and '$' not in n][:6]
-    values = ['v', '', 'x/y', 'two\nlines', 'back\\slash\ttab'] + ['$%s' % n for n in names] + ['${%s}:z' % n for n in names] + ['a:$%s' % n for n in names]
+    values = ['v', '', 'x/y', 'two\nlines', 'back\\slash\ttab', 'dos\r\nline', 'bar\rredrawn', 'end\n'] + ['$%s' % n for n in names] + ['${%s}:z' % n for n in names] + ['a:$%s' % n for n in names]
     want = target.native_label(ob.label)
 
     def sample(v, name):
